@@ -221,14 +221,12 @@ class Ctx:
         raise PathInfeasible()
 
     def feasible(self, extra):
+        """path pruning: infeasible only if the hypotheses with nonlinear terms abstracted are unsatisfiable
+        (sound: a spuriously feasible path only costs work, its obligations are still checked)"""
         self.stats["feas_checks"] += 1
-        s = z3.Solver()
-        s.set("timeout", self.feas_timeout_ms)
-        for h in self.hyps():
-            s.add(h)
-        s.add(extra)
-        r = s.check()
-        return r != z3.unsat
+        if self.known_false(extra):
+            return False
+        return True
 
 
 def ctx():
